@@ -297,6 +297,9 @@ def history(rng, version, length, profile):
         vt2 = rng.choice([0, 24, 16])
         vals = [set_value_for(rng, version, vt1, unicode_ok=False) for _ in range(3)]
         pv = rng.choice([version, "1.4", "1.5", "2.0", "2.2"])
+        if rng.random() < 0.5 and pv in spec.VERSIONS and spec.rule_for(pv, 1, vt1) is not None:
+            # the controller asks for a value that is valid under the table of the version the NODE presented
+            vals[1] = set_value_for(rng, pv, vt1, unicode_ok=False)
         ptype = {2: 3, 3: 4, 23: 16, 24: 23, 47: 36, 22: 29}[vt1]
         st += [["in", f"{n};255;0;0;17;{pv}"], ["in", f"{other};255;0;0;17;{version}"], ["in", f"{other};1;0;0;6;o"],
                ["in", f"{other};1;1;0;0;20.5"],
